@@ -1749,9 +1749,141 @@ fn c17(ctx: &Ctx, gi: usize, ri: usize, rep: &mut Report, note: &dyn Fn(&str)) {
 // ---------------------------------------------------------------------------------------------
 // C18: results are deterministic values, stable under clone / eq / hash
 
+/// Digest of the complete observation of one call (all entry points), used by the history exploration.
+pub fn op_digest(e: &GrammarEntry, ri: usize, input: &str) -> String {
+    let req = Req {
+        s: input,
+        a: 0,
+        b: input.len(),
+        form: Form::Str,
+        init: &[],
+        what: what::PP | what::PF | what::CP | what::CF | what::ERRTEXT | what::DEBUG | what::EQH,
+    };
+    match typed(e, ri, &req) {
+        Ok(mut o) => {
+            // Span hashes are identity based (they include the address of the input string), so the
+            // hash *value* legitimately differs between processes; the eq/hash *facts* stay in
+            if let Some(q) = o.eqh.as_mut() {
+                q.hash = 0;
+            }
+            let mut h: u64 = 0xcbf29ce484222325;
+            fnv(&mut h, &format!("{:?}", o));
+            format!("{:016x}", h)
+        }
+        Err(_) => "panic".to_string(),
+    }
+}
+
+/// C18, histories: all call sequences of length <= 3 over a small operation alphabet drawn from this
+/// grammar and its neighbour in the shard; the observation of the last call must equal the observation
+/// of the same call made first in a fresh process image.
+fn c18_histories(ctx: &Ctx, gi: usize, rep: &mut Report, note: &dyn Fn(&str)) {
+    let mut ops: Vec<(usize, usize, String)> = vec![];
+    let gj = (gi + 1) % ctx.entries.len();
+    for (g_idx, take) in [(gi, 3usize), (gj, 2usize)] {
+        let e = &ctx.entries[g_idx];
+        let g = &ctx.grammars[g_idx];
+        let inputs = inputs_for(ctx, e, 0);
+        let mut taken = 0;
+        for (ri, r) in e.rules.iter().enumerate() {
+            if !r.entry || taken >= take {
+                continue;
+            }
+            // the longest accepted input and the longest rejected one
+            let mut acc: Option<&String> = None;
+            let mut rej: Option<&String> = None;
+            for inp in inputs.iter().take(4000) {
+                if ill_founded(g, ri, inp) {
+                    continue;
+                }
+                let r = m::run(g, ri, inp, "", &[], true, Atom::NonAtomic);
+                if r.full_ok == Some(true) {
+                    acc = Some(inp);
+                } else if r.ok.is_none() {
+                    rej = Some(inp);
+                }
+            }
+            for x in [acc, rej].into_iter().flatten() {
+                ops.push((g_idx, ri, x.clone()));
+            }
+            taken += 1;
+        }
+    }
+    ops.truncate(8);
+    if ops.len() < 2 {
+        return;
+    }
+    let exe = match std::env::current_exe() {
+        Ok(p) => p,
+        Err(_) => return,
+    };
+    let mut baseline = vec![];
+    for (g_idx, ri, inp) in &ops {
+        let out = std::process::Command::new(&exe)
+            .args(["--c18-op", &g_idx.to_string(), &ri.to_string(), &enumerate::escape(inp)])
+            .output();
+        match out {
+            Ok(o) if o.status.success() => baseline.push(String::from_utf8_lossy(&o.stdout).trim().to_string()),
+            _ => {
+                rep.model_error("C18: could not obtain a fresh-process baseline".to_string());
+                return;
+            }
+        }
+    }
+    let n = ops.len();
+    let run = |k: usize| op_digest(&ctx.entries[ops[k].0], ops[k].1, &ops[k].2);
+    let mut check = |hist: &[usize], rep: &mut Report| {
+        note(&format!("history {:?} in {}", hist, ctx.entries[gi].id));
+        for &k in &hist[..hist.len() - 1] {
+            let _ = run(k);
+        }
+        let last = *hist.last().unwrap();
+        let d = run(last);
+        rep.cases += 1;
+        if hist.len() > 1 {
+            rep.nontrivial += 1;
+        }
+        rep.cell(&format!("history-length-{}", hist.len()));
+        if d != baseline[last] {
+            let (g_idx, ri, inp) = &ops[last];
+            let case = Case {
+                ctx,
+                gi: *g_idx,
+                ri: *ri,
+                input: inp,
+                form: Form::Str,
+                a: 0,
+                b: inp.len(),
+                init: &[],
+            };
+            let desc: Vec<String> = hist.iter().map(|k| format!("{}:{}:{:?}", ctx.entries[ops[*k].0].id, ctx.entries[ops[*k].0].rules[ops[*k].1].name, ops[*k].2)).collect();
+            rep.violation(case.violation(
+                "result-depends-on-earlier-calls",
+                format!("observation digest {} (first call in a fresh process)", baseline[last]),
+                format!("digest {} after the history", d),
+                format!("history: {}", desc.join(" ; ")),
+            ));
+        }
+    };
+    for a in 0..n {
+        check(&[a], rep);
+        for b in 0..n {
+            check(&[a, b], rep);
+            for c in 0..n {
+                check(&[a, b, c], rep);
+            }
+        }
+    }
+    rep.impl_validated += (n + n * n + n * n * n) as u64;
+}
+
 fn c18(ctx: &Ctx, gi: usize, ri: usize, rep: &mut Report, note: &dyn Fn(&str)) {
     let e = &ctx.entries[gi];
     let g = &ctx.grammars[gi];
+    let first_entry = e.rules.iter().position(|r| r.entry).unwrap_or(0);
+    if ri == first_entry && ctx.opts.only_input.is_none() {
+        c18_histories(ctx, gi, rep, note);
+    }
     let inputs = inputs_for(ctx, e, 0);
     let cmp = e.rules[ri].compare;
     let max = ctx.len_for(e);
